@@ -1838,7 +1838,9 @@ def judge_history(h, ans, bump, viol, disag, keys, stats):
             stats["oom"] += 1
             return
         what = "history step %s %s" % (step["o"], step["path"])
-        if res[0].startswith("crash") or res[0] == "timeout":
+        if res[0] == "timeout" or (res[0].startswith("crash") and m.get("err") != res[0]):
+            # (a crash the model predicts - a create step whose negative index lies below the list: IndexError, document
+            # unchanged - is the evaluator's refusal, counted by C09 as not judged)
             viol.append(("history:%s@%s" % (res[0], res[1]), what + " raised " + res[0], rep))
             return
         if "err" in m:
